@@ -297,7 +297,7 @@ func init() {
 		Scripts: tierN(2, 12), Random: tierN(250, 20000), MaxCalls: 80,
 		Kinds:    []sim.FaultKind{sim.F500Before, sim.F409Before, sim.FTimeoutAfter, sim.FCrashBefore, sim.FCrashAfter},
 		Modes:    []string{"seq", "lag"},
-		EvalKeys: []string{"C02", "C02_requests"},
+		EvalKeys: []string{"C02", "C02_requests", "C02_kept"},
 		Base: func(env *core.Env, script int, mode string) simCase {
 			seed := env.Seed*4409 + int64(script)*32452843 + 3
 			return c02Case(seed, mode)
